@@ -16,7 +16,7 @@ RULE = ("full product of input spelling (directory: absolute, relative, trailing
         "non-trivial = every generated page; distinct by (configuration, file)")
 
 FILES = ["a.cmake", "d1/b.cmake", "d1/d2/c.cmake", "d1/d2/d3/x.y-z.cmake", "mods.cmake.d/arm.cmake",
-         "d1/conf.cmake.in.cmake"]
+         "d1/conf.cmake.in.cmake", ".hidden.cmake", "hidden.cmake", "-dash.cmake", "dash.cmake"]
 SEPS = [".", "/", "::", "-"]
 
 
@@ -86,8 +86,8 @@ def run_config(job):
         cfg_prefix = "Q" if pmode in ("cfg", "both") else None
         with open(box.path("work", "s.yaml"), "w") as f:
             f.write(settings_yaml(sep, ext_t, ext_m, headers, cfg_prefix))
-        pargs = ["-p", "P"] if pmode in ("cli", "both") else []
-        explicit = "P" if pmode in ("cli", "both") else cfg_prefix
+        pargs = ["-p", "P"] if pmode in ("cli", "both") else ["-p", "Lib" + sep] if pmode == "cli-sep" else []
+        explicit = "P" if pmode in ("cli", "both") else "Lib" + sep if pmode == "cli-sep" else cfg_prefix
         hc = (headers or ["#"])[0]
         seen = {}
         n = 0
@@ -194,7 +194,7 @@ def run_config(job):
 
 MOD_NAMES = [None, "", "nm", "a.b-c"]
 MOD_BODIES = [[], ["Module body one."], ["Module body one.", "  indented second"]]
-MOD_INDENTS = ["", "  ", "      ", "        ", "\t"]
+MOD_INDENTS = ["", "  ", "      ", "        ", "\t", "GAP2", "GAPTAB"]   # the last two: '#[[[  @module', '#[[[<TAB>@module' 
 MOD_NEXT = ["documented", "undocumented", "none"]
 
 
@@ -206,7 +206,10 @@ def module_file(name, body, indent, nxt, i):
         evs.append({"k": "function", "doc": 1, "doctext": [f"Doc of the next command #{i}."], "name": f"next_{i}"})
     elif nxt == "undocumented":
         evs.append({"k": "function", "doc": 0, "name": f"next_{i}"})
-    return cmakegen.render(cmakegen.items(cmakegen.close(evs)), {"doc_indent": indent, "head": indent})
+    lay = {"doc_indent": indent, "head": indent}
+    if indent in ("GAP2", "GAPTAB"):
+        lay = {"module_gap": "  " if indent == "GAP2" else "\t"}
+    return cmakegen.render(cmakegen.items(cmakegen.close(evs)), lay)
 
 
 def run_modules(job):
@@ -286,6 +289,7 @@ def run(ctx):
         for et, em in itertools.product((False, True), repeat=2):
             for pmode in ("none", "cli", "cfg", "both"):
                 jobs.append((sep, et, em, pmode, None))
+        jobs.append((sep, False, False, "cli-sep", None))     # a prefix that itself ends with the separator
     for headers in (["^", "*"], ["="]):
         for sep in (SEPS[:2] if quick else SEPS):
             jobs.append((sep, False, True, "none", headers))
@@ -295,7 +299,7 @@ def run(ctx):
     mjobs += [(sep, "none", False, False, hdr) for sep in SEPS[:2] for hdr in (("=", "-", "~"), ("^", "*"))]
     ctx.sweep(run_modules, mjobs, space="module doccomments", selftest=1, chunk=1)
     ctx.cov["bounds"] = {"files": FILES, "separators": SEPS, "dir_spellings": [s[0] for s in DIR_SPELLINGS],
-                         "file_spellings": [s[0] for s in FILE_SPELLINGS], "module_variants": 4 * 3 * 5 * 3}
+                         "file_spellings": [s[0] for s in FILE_SPELLINGS], "module_variants": 4 * 3 * 7 * 3}
     ctx.assumptions += ["path components may be joined by the OS separator or by the configured separator (both accepted)",
                         "a lone input file has a prefix only when one is configured explicitly"]
     return RULE
